@@ -124,6 +124,13 @@ def gen_solve_case(rng, desc=None, base=None):
             keep = np.ones(n, dtype=bool)
             keep[inds] = False
             t0 = np.where(keep, gth, t0)       # only the free joints differ from the solution
+        if rng.random() < 0.4 and m < n:
+            # nearly reachable: the held joints are a little off, so the best the free joints can do misses the goal by 1e-5 .. 1e-3 -
+            # between the configured tolerances and any fixed acceptance threshold
+            keep = np.ones(n, dtype=bool)
+            keep[inds] = False
+            t0 = np.asarray(t0, dtype=float) + keep * rng.choice([-1.0, 1.0], n) * 10 ** rng.uniform(-5, -3)
+            sk = "held_joints_off"
     return {"arm": desc, "base": base, "prefix": prefix, "pos_tol": pt, "rot_tol": rt, "goal_theta": gth.tolist(), "goal_kind": gk,
             "theta0": None if t0 is None else np.asarray(t0).tolist(), "start_kind": sk, "path": path,
             "check": bool(rng.random() < 0.6), "inds": inds, "rseed": int(rng.integers(1 << 30))}
